@@ -13,8 +13,11 @@
   than 10⁻²²) in which the two tolerances decide differently.
 -/
 import PySpikeVerif.Proofs.GenRefine.ApiRecon
+import PySpikeVerif.Proofs.GenRefine.ApiThresh
+import PySpikeVerif.Proofs.GenRefine.ApiTrain
 import PySpikeVerif.Properties.C13
 import PySpikeVerif.Properties.C20
+import PySpikeVerif.Properties.C15
 open PySpike PySpike.Gen PySpike.GenRefine
 
 namespace PySpike.C13
@@ -99,3 +102,38 @@ theorem source_merge_counts (L : List PyTrain) (h : L ≠ []) (x : Q) :
   ⟨_, gen_merge_eq L h, merge_sorted (L.map ofPy), merge_counts (L.map ofPy) x⟩
 
 end PySpike.C20
+
+namespace PySpike.C15
+
+/-- `default_thresh(spike_train_list)` (the threshold `MRTS='auto'` stands for) as translated from
+    `pyspike/isi_lengths.py`: its square IS `defaultThreshSq` — for ALL lists of trains; the empty list gives 0. The
+    source returns `np.sqrt` of this number (√ is outside ℚ; the translator emits the radicand). -/
+theorem source_default_thresh_sq_is_model (F : Nat) (L : List PyTrain) :
+    GenApi.default_thresh_sq F L = some (defaultThreshSq (L.map ofPy)) := gen_default_thresh_sq F L
+
+/-- `default_thresh_(train_list, t_start, t_end)`: the mean of the squared pooled `isi_lengths` -/
+theorem source_default_thresh_pool (F : Nat) (ls : List (List Rat)) (ts te : Rat) :
+    GenApi.default_thresh__sq F ls ts te =
+      some (qsum ((ls.flatMap fun s => isiLengths s ts te).map fun x => x * x) /
+            (((ls.flatMap fun s => isiLengths s ts te).length : Nat) : Q)) := gen_default_thresh__sq F ls ts te
+
+end PySpike.C15
+
+namespace PySpike.C18
+
+/-- `SpikeTrain.get_spikes_non_empty()` as translated from `pyspike/SpikeTrain.py` IS `Train.nonEmpty`: the spikes, or
+    for an EMPTY train the sorted distinct edges (what the multivariate ISI / SPIKE code feeds to the kernels) -/
+theorem source_get_spikes_non_empty_is_model (t : PyTrain) :
+    GenApi.SpikeTrain.get_spikes_non_empty t = some (Train.nonEmpty (ofPy t)) := gen_get_spikes_non_empty t
+
+end PySpike.C18
+
+namespace PySpike.C19
+
+/-- `SpikeTrain.copy()` returns a train with the same three attributes; `SpikeTrain.sort()` sorts the spike times and
+    leaves the edges alone (source level) -/
+theorem source_copy_is_identity (t : PyTrain) : GenApi.SpikeTrain.copy t = some t := gen_copy t
+theorem source_sort_sorts (t : PyTrain) :
+    GenApi.SpikeTrain.sort t = some ⟨sortQ t.spikes, t.t_start, t.t_end⟩ := gen_sort t
+
+end PySpike.C19
